@@ -371,6 +371,17 @@ def run_prog(prog):
                     newbox = (op[1], AABB.intersection(boxes[op[2]], boxes[op[3]]))
                 elif kind == "do_intersect":
                     r = ["b", bool(AABB.do_intersect(boxes[op[1]], boxes[op[2]]))]
+                elif kind == "dim":
+                    r = ["s", canon_float(boxes[op[1]].dim)]
+                elif kind in ("mini", "maxi"):
+                    r = ["v", canon_vec(getattr(boxes[op[1]], kind))]
+                elif kind in ("and", "or"):
+                    newbox = (op[1], (boxes[op[2]] & boxes[op[3]]) if kind == "and" else (boxes[op[2]] | boxes[op[3]]))
+                elif kind == "getc":
+                    res = getattr(arrs[op[1]].view(Vec), op[2])
+                    r = ["v", canon_vec(res)] if op[2] == "xy" else scalar(res)
+                elif kind == "vecset":
+                    setattr(arrs[op[1]].view(Vec), op[2], op[3])
                 elif kind == "is_empty":
                     r = ["b", bool(boxes[op[1]].is_empty())]
                 elif kind == "span":
